@@ -750,7 +750,9 @@ def gen_import_tree(r, root):
     files['R0/lib/b.l'] = 'B("b_of_first_root");\n'
     files['R1/lib/b.l'] = 'B("b_of_second_root");\n'
     files['R1/lib/c.l'] = 'C("c");\n'
-    main = eng + 'import lib.c.C;\nimport lib.b.B;\nT(x, y) :- C(x), B(y);\n'
+    imports = ['import lib.c.C;', 'import lib.b.B;']
+    r.shuffle(imports)
+    main = eng + '\n'.join(imports) + '\nT(x, y) :- C(x), B(y);\n'
   elif shape == 'two_mains':
     # two different main programs over ONE import tree: the first imports lib.common itself and
     # through lib.stats, the second reaches lib.common through lib.stats only
